@@ -518,6 +518,7 @@ def l2_suite(profile, quick=60, thorough=1500, native=True, name=None, extra_mon
             if len(iops) != len(mops):
                 res.mismatches.append(dict(suite=res.name, case=c, impl=' ; '.join(' '.join(x) for x in iops)[:3000], model=' ; '.join(' '.join(x) for x in mops)[:3000]))
             else:
+                logged_mismatch = False
                 for j, (x, y) in enumerate(zip(iops, mops)):
                     if x == y:
                         continue
@@ -540,9 +541,13 @@ def l2_suite(profile, quick=60, thorough=1500, native=True, name=None, extra_mon
                         # the property fixes what this operation returns (the proved model is that specification)
                         res.property_failures.append(dict(suite=res.name, case=c, op_index=j, impl=' '.join(_result_part(x))[:1500],
                                                           spec=' '.join(_result_part(y))[:1500], what=determined + f' (operation {j} of the history)'))
-                    else:
+                        break
+                    if not logged_mismatch:
                         res.mismatches.append(dict(suite=res.name, case=c, op_index=j, impl=' '.join(x)[:1500], model=' '.join(y)[:1500]))
-                    break
+                        logged_mismatch = True
+                    if not determined:
+                        break
+                    # (only the request log differs here: keep looking for an operation whose RESULT differs)
             # --- native reference (the property itself for a single writer)
             for j, (s3, nat) in enumerate(pairs):
                 if nat is None or not native:
@@ -1087,7 +1092,8 @@ def c15_monitor(ctx, res, case, impl_line, model_line, spec):
                                                   what='an automatic transaction write time is still set (and visible in s3db_conn) outside the transaction'))
                 return
 
-register('C13', [l2_suite('ro', native=False, extra_monitor=c13_monitor, name='l2-ro'), l1_suite(['rows', 'plain'])],
+register('C13', [l2_suite('ro', native=False, extra_monitor=c13_monitor, name='l2-ro',
+                          determined='a statement on (or next to) a read-only table returns something else than the committed rows: a refused write changed what is visible'), l1_suite(['rows', 'plain'])],
          ['the request log of the HTTP proxy in front of gofakes3 sees every storage request'])
 register('C09', [l2_suite('vacuum', native=False, extra_monitor=c09_monitor, name='l2-vacuum'),
                  l1_suite(['rows', 'plain'], monitor=chain(c09_l1_monitor, determined_result_monitor('after deleting history / vacuum an operation returns something else than the retained contents'))),
